@@ -52,12 +52,14 @@ def build_programs(shapes, reqs):
     fams = []
     k = [0]
 
-    def family(pos, added_fields, req, t, label):
+    def family(pos, added_fields, req, t, label, empty_host=False):
         bn, inn, un = "B%d" % k[0], "I%d" % k[0], "U%d" % k[0]
         k[0] += 1
 
         def fam_defs(edit):
             ifs = [F(1, "default", T("i32"), "x"), F(2, "optional", T("string"), "y")]
+            if empty_host:      # the old version of the nested struct declares no field at all
+                ifs = []
             ufs = [F(1, "default", T("i32"), "p"), F(2, "default", T("string"), "q")]
             bfs = [F(1, "default", T("i32"), "a"), F(2, "optional", T("string"), "b"),
                    F(3, "default", T(inn), "n"), F(4, "default", T("list", T(inn)), "l"),
@@ -98,6 +100,11 @@ def build_programs(shapes, reqs):
         tag2["vals"] = lens
         family(pos, [F(10, "default", T("map", T("i32"), T("string")), "first"), tag2,
                      F(12, "default", T("set", T("string")), "tags")], "optional", T("string"), "multi2")
+    # a struct that declares nothing in the old version and gains its first fields in the new one
+    family("nested", [F(10, "optional", T("string"), "added"), F(11, "default", T("i32"), "cnt")], "optional", T("string"),
+           "empty-host", empty_host=True)
+    family("nested", [F(10, "default", T("list", T("i32")), "added")], "default", T("list", T("i32")), "empty-host",
+           empty_host=True)
     old = {"files": [{"path": "a.thrift", "namespaces": [{"lang": "go", "name": "evo"}], "defs": old_defs}]}
     new = {"files": [{"path": "a.thrift", "namespaces": [{"lang": "go", "name": "evo"}], "defs": new_defs}]}
     return old, new, fams
